@@ -463,6 +463,9 @@ fn cmd_run(a: &Args) -> i32 {
                         // "every stored handle is recorded"; histories that hit the known C13 finding
                         // are skipped below
                         cfg0.class = Class::Elide;
+                        // the known C13 finding damages the heap if the operation is allowed to go on:
+                        // leave the process at the destructor start (the driver resumes after it)
+                        cfg0.hard_exit = true;
                         let hseed = mix(seed ^ 0xE11D, this);
                         let rc = RandCfg { class: Class::Elide, max_objs: 2 + (mix(hseed, 2) % 4) as usize, len: 15 + (mix(hseed, 1) % 40) as usize, weak_bias: 1, consume_bias: 0 };
                         let mut rg = RandGen::new(rc, hseed);
@@ -487,6 +490,7 @@ fn cmd_run(a: &Args) -> i32 {
                         (run::run_history(&cfg0, &mut g, 10_000), format!("enum-full[{}]", desc))
                     }
                 };
+                cfg0.hard_exit = false;
                 let mut first = first;
                 let mut skipped = false;
                 if src == 4 && first.violations.iter().any(|v| v.known_sig.is_some()) {
